@@ -68,6 +68,20 @@ Fixpoint print_frags (fs : list nfrag) : bytes :=
   end.
 Definition print_path (fs : list nfrag) : bytes := x24 :: print_frags fs.
 
+(* Expr.BracketString: every fragment in its bracket form; a descent is written [..] (and one more
+   dot when it is the last fragment), which the parser does not read - the recorded finding of C14 *)
+Definition print_frag_b (f : nfrag) : bytes :=
+  match f with
+  | NChild k => x5b :: x27 :: enc_body_u (length k) k ++ [x27; x5d]
+  | NWild _ => [x5b; x2a; x5d]
+  | NDescent => [x5b; x2e; x2e; x5d]
+  | _ => print_frag f
+  end.
+Definition ends_in_descent (fs : list nfrag) : bool :=
+  match rev fs with NDescent :: _ => true | _ => false end.
+Definition print_path_b (fs : list nfrag) : bytes :=
+  x24 :: flat_map print_frag_b fs ++ (if ends_in_descent fs then [x2e] else []).
+
 (* ---- parser *)
 Fixpoint skip_space (w : bytes) : bytes :=
   match w with b :: r => if beqb b x20 then skip_space r else w | [] => [] end.
